@@ -1,5 +1,6 @@
 import Bpmn.Driver.Main
 import Bpmn.Driver.C08
+import Bpmn.Driver.C01
 open Bpmn.Driver
 
 def main : IO UInt32 :=
@@ -9,4 +10,5 @@ def main : IO UInt32 :=
     | "c08filter" => C08.checkFilter params lines
     | "c08retry" => C08.checkRetry params lines
     | "c08eng" => C08.checkEng params lines
+    | "c08par" => C01.check params lines
     | _ => { bad := [s!"unknown family {family}"] })
